@@ -20,7 +20,7 @@ use std::sync::OnceLock;
 pub struct C08Prop;
 pub static C08: C08Prop = C08Prop;
 
-const PARTS: [&str; 14] = ["0.1", "0.25", "0.5", "0.75", "1", "1.25", "1.5", "2", "2.5", "3", "3.75", "5", "6.5", "8"];
+const PARTS: [&str; 21] = ["0.1", "0.25", "0.5", "0.75", "1", "1.25", "1.5", "2", "2.5", "3", "3.75", "5", "6.5", "8", "0.3", "0.2", "0.7", "1.1", "2.1", "3.3", "0.9"];
 
 fn gen_operand(c: &mut dyn Choices) -> E {
     if c.below(12) == 11 {
@@ -143,11 +143,26 @@ impl Prop for C08Prop {
             Sub { name: "literals", kind: SubKind::Enum { count: literal_cases().len() as u64 } },
             Sub { name: "real", kind: SubKind::Enum { count: c15::C15.subs(tier).iter().find(|s| s.name == "complex-f64").map(|s| if let SubKind::Enum { count } = s.kind { count } else { 0 }).unwrap_or(0) } },
             Sub { name: "extreme-abs", kind: SubKind::Enum { count: extreme_values().len() as u64 * 3 } },
+            Sub { name: "products", kind: SubKind::Enum { count: 21u64.pow(4) * 2 } },
             Sub { name: "exact", kind: SubKind::Random { cases: tier.pick(300_000, 10_000_000), len: 160 } },
             Sub { name: "root", kind: SubKind::Random { cases: tier.pick(400_000, 20_000_000), len: 120 } },
         ]
     }
     fn gen_enum(&self, sub: &str, idx: u64, tier: Tier) -> Option<Case> {
+        if sub == "products" {
+            // every product (a+bi)*(c±di) over the decimal parts: the component formulas hold bit for bit also where the two
+            // partial products of a component are mathematically equal and round differently (0.3*1 vs 3*0.1)
+            let mut i = idx;
+            let neg = i % 2 == 1;
+            i /= 2;
+            let pick = |i: &mut u64| {
+                let p = PARTS[(*i % 21) as usize];
+                *i /= 21;
+                p
+            };
+            let (a, b, c, d) = (pick(&mut i), pick(&mut i), pick(&mut i), pick(&mut i));
+            return Some(Case::new(Ev::Cpx, format!("({}+{}i)*({}{}{}i)", a, b, c, if neg { "-" } else { "+" }, d), Val::C(0.0, 0.0)));
+        }
         match sub {
             "literals" => Some(Case::new(Ev::Cpx, literal_cases().get(idx as usize)?.clone(), Val::C(0.0, 0.0))),
             "extreme-abs" => {
